@@ -10,6 +10,13 @@ P = ['C12', 'C01']
 FIRSTBYTE = [(r's\.as_bytes\(\)', 'pl_str_as_bytes(s)', 1, 'R8'),
              (r'bytes\[(\d)\]\.is_ascii_whitespace\(\)', r'pl_u8_is_ascii_whitespace(bytes[\1])', None, 'R8')]
 
+def _matches_str_literals(m):
+    # R35: `matches!(s, "a" | "b" | ...)` on a &str is a disjunction of equalities
+    import re as _re
+    lits = _re.findall(r'"(?:[^"\\\\]|\\\\.)*"', m.group(2))
+    return '(' + ' || '.join('pl_str_eq(%s, %s)' % (m.group(1), l) for l in lits) + ')'
+MATCHES_STR = (r'matches!\(\s*(\w+),\s*((?:"(?:[^"\\\\]|\\\\.)*"\s*\|?\s*)+)\)', _matches_str_literals, None, 'R35')
+
 ITEMS = [
     dict(src=Q, path='fn is_numeric_looking', trusted=True, props=[], ensures=[('regex_is_opaque', 'r == sp_numeric_looking(s.spec_bytes())')]),
     dict(src=Q, path='fn contains_any_or_is_control', trusted=True, props=[],
@@ -24,8 +31,8 @@ ITEMS = [
          proofs=[dict(before='let a = is_ascii_lower(bytes[i]);', text='lemma_or20(bytes@[i as int]); lemma_or20(bytes@[i + 1]); lemma_or20(bytes@[i + 2]);')],
          canaries=['C12:special_float_spellings_recognised_exactly']),
     dict(src=Q, path='fn is_ambiguous', props=P, lift_nested_fns=True,
-         pre_rewrites=[(r's\.is_empty\(\)', 'pl_str_is_empty(s)', None, 'R8'),
-                       (r's == "(~|<<)"', r'pl_str_eq(s, "\1")', None, 'R8'),
+         pre_rewrites=[MATCHES_STR, (r's\.is_empty\(\)', 'pl_str_is_empty(s)', None, 'R8'),
+                       (r's == ("(?:[^"\\\\]|\\\\.)*")', r'pl_str_eq(s, \1)', None, 'R8'),
                        (r's\.eq_ignore_ascii_case\(("\w+")\)', r'pl_str_eq_ci(s, \1)', None, 'R8'),
                        (r'if let Some\(rest\) = s\.strip_prefix\("---"\)\.or_else\(\|\| s\.strip_prefix\("\.\.\."\)\) \{',
                         'if let Some(rest) = (match pl_str_strip_prefix(s, "---") { Some(__v) => Some(__v), None => pl_str_strip_prefix(s, "...") }) {', 1, 'R18'),
